@@ -35,7 +35,7 @@ from ..mutate import mutate, remove_stmts, replace_expr, replace_stmt, parse_stm
 from ..x_http import (
     RegexEnv, atom_edges, call_sites_in, call_tree, canon_atom, contains, forward_until, group_count, group_rx, handler_for,
     leads_to_raise, node_mentions, only_through, raised_class, reach_without, rebinds_between, resolve_call, same_expr,
-    single_bindings, truthy_edges,
+    single_bindings, truthy_edges, norm_func, Flow, group_index, handler_class_names, unpack_of,
 )
 
 TECHNIQUE = "regex-automata language bounds + branch-edge guard dominance on the CFG + exception-escape lint over the resolved read call tree"
@@ -78,6 +78,12 @@ HOST_LOWER = r"(?:(?:[A-Za-z0-9\-._~!$&'()*+;=]|%[0-9A-Fa-f]{2})*|\[[0-9A-Fa-f:.
 HEADER_END = rb"\r?\n\r?\n"                            # CRLF CRLF with bare-LF leniency (RFC 9112 2.2)
 BAD_REQUEST = rb"HTTP/1\.[01] 400 [\t \x21-\x7e\x80-\xff]*\r\n(?:[^\r\n]+\r\n)*\r\n"
 INT_LIMIT = 4300  # CPython's default str->int digit limit
+
+
+def _F(ck, rel, qn):
+    """the anchored function with private single-purpose helpers inlined (statements a refactoring moved into
+    `self._helper()` are analysed in place); same qualified name"""
+    return norm_func(ck.repo, ck.func(rel, qn))
 
 
 def _is_input_error(cls):
@@ -217,7 +223,7 @@ def wire_asserts(fi):
 
 
 def check_header_block(ck, env, RP="C01"):
-    fi = ck.func(H1, "HTTP1Connection._read_message")
+    fi = _F(ck, H1, "HTTP1Connection._read_message")
     reads = call_sites(fi, ".read_until_regex")
     ck.floor(RP + ".header-block-delimiter", len(reads), 1, "read_until_regex calls in _read_message")
     ref_s = env.rx(HEADER_END, "search")
@@ -242,7 +248,7 @@ def check_header_block(ck, env, RP="C01"):
 
 def check_request_line(ck, env, RP="C01"):
     R = RP + ".request-line"
-    fi = ck.func(HU, "parse_request_start_line")
+    fi = _F(ck, HU, "parse_request_start_line")
     cfg = fi.cfg
     rcalls = env.calls(fi)
     ck.floor(R, len(rcalls), 1, "regex calls in parse_request_start_line")
@@ -278,18 +284,14 @@ def check_request_line(ck, env, RP="C01"):
     ver = atom_edges(cfg, lambda a: True if (isinstance(a, ast.Call) and q.call_attr(a) == "startswith" and a.args and _const_str(a.args[0]) and a.args[0].value.startswith("HTTP/1")) else None)
     for r in rets:
         ck.ob(R, fi, r.ast, only_1x or only_through(cfg, r, ver), "only HTTP/1.x versions are returned (version gate or regex)")
-    # fields come from the groups in order
-    binds = single_bindings(fi.node)
+    # fields come from the groups in order (through aliases / tuple unpacking)
+    flow = Flow(fi)
     ctor = [c for c in q.calls(fi.node) if q.call_attr(c) == "RequestStartLine"]
     ck.floor(R, len(ctor), 1, "RequestStartLine constructions")
     for c in ctor:
-        idx = []
-        for a in c.args:
-            if isinstance(a, ast.Call) and q.call_attr(a) == "group" and a.args and isinstance(a.args[0], ast.Constant):
-                idx.append(a.args[0].value)
-            else:
-                idx.append(None)
-        if None in idx:
+        at = flow.node_of(c)
+        idx = [group_index(flow.expand(a, at)) for a in c.args]
+        if None in idx or len(idx) != 3:
             raise AnalysisError("RequestStartLine built from something else than match groups at %s" % fi.site(c))
         ck.ob(R, fi, c, idx == [1, 2, 3], "RequestStartLine(method, path, version) is built from groups 1, 2, 3 in order")
 
@@ -325,7 +327,7 @@ def _is_blacklist(fi, call):
 
 
 def _dict_attr(ck):
-    ga = ck.func(HU, "HTTPHeaders.get_all")
+    ga = _F(ck, HU, "HTTPHeaders.get_all")
     for c in q.calls(ga.node):
         if q.call_attr(c) == "items" and (q.dotted(c.func.value) or "").startswith("self."):
             return q.dotted(c.func.value).split(".", 1)[1]
@@ -334,9 +336,9 @@ def _dict_attr(ck):
 
 def check_header_fields(ck, env, RP="C01"):
     da = _dict_attr(ck)
-    add = ck.func(HU, "HTTPHeaders.add")
-    pl = ck.func(HU, "HTTPHeaders.parse_line")
-    parse = ck.func(HU, "HTTPHeaders.parse")
+    add = _F(ck, HU, "HTTPHeaders.add")
+    pl = _F(ck, HU, "HTTPHeaders.parse_line")
+    parse = _F(ck, HU, "HTTPHeaders.parse")
     token = env.rx(TOKEN)
     fv_up, fv_lo = env.rx(FIELD_VALUE_UPPER), env.rx(FIELD_VALUE_LOWER)
     flag, _d = _flag_param(add)
@@ -392,7 +394,24 @@ def check_header_fields(ck, env, RP="C01"):
     ck.floor(R, len(pstores), 1, "continuation stores in HTTPHeaders.parse_line")
     prc = env.calls(pl)
     off = flag_off(pl.cfg, plflag)
-    lastkey_set = atom_edges(pl.cfg, lambda a: False if (isinstance(a, ast.Compare) and isinstance(a.ops[0], ast.Is) and q.is_const(a.comparators[0], None) and (q.dotted(a.left) or "").startswith("self.")) else None)
+    plflow = Flow(pl)
+
+    def _store_key(node):
+        """the (expanded) expression naming the field a continuation store extends: self.<dict>[KEY][-1] += ..."""
+        tgt = node.ast.target if isinstance(node.ast, ast.AugAssign) else (node.ast.targets[0] if isinstance(node.ast, ast.Assign) else None)
+        if isinstance(tgt, ast.Subscript) and isinstance(tgt.value, ast.Subscript):
+            return plflow.expand(tgt.value.slice, node)
+        return None
+
+    def lastkey_edges(key):
+        out = set()
+        for tn in pl.cfg.stmt_nodes(lambda n: n.kind == "test"):
+            a, flip = canon_atom(tn.ast)
+            if isinstance(a, ast.Compare) and len(a.ops) == 1 and isinstance(a.ops[0], ast.Is) and q.is_const(a.comparators[0], None) and key is not None and same_expr(plflow.expand(a.left, tn), key):
+                for sid, kind in pl.cfg.succ[tn.id]:
+                    if kind in ("true", "false") and ((kind == "true") != flip) is False:
+                        out.add((tn.id, sid, kind))
+        return out
     for node, v in pstores:
         if v is None or not isinstance(v, ast.Name):
             raise AnalysisError("continuation store of an unknown shape at %s" % pl.site(node.ast))
@@ -409,7 +428,10 @@ def check_header_fields(ck, env, RP="C01"):
                     ck.ob(R, pl, c, subj.slice.upper is None and isinstance(lo, ast.Constant) and lo.value == 1, "the validated text is the stored text without the one joining space")
         ck.ob(R, pl, node.ast, only_through(pl.cfg, node, pos | off), "a folded line is appended only after it matched field-value (HTTP mode)")
         ck.ob(R, pl, node.ast, not rebinds_between(pl.cfg, pos, node, {v.id}), "the checked continuation text is not re-bound before the append")
-        ck.ob(R, pl, node.ast, only_through(pl.cfg, node, lastkey_set), "a continuation line needs a previous header (else HTTPInputError, not KeyError)")
+        key = _store_key(node)
+        if key is None or not (q.dotted(key) or "").startswith("self."):
+            raise AnalysisError("continuation store: cannot identify the field it extends at %s" % pl.site(node.ast))
+        ck.ob(R, pl, node.ast, only_through(pl.cfg, node, lastkey_edges(key)), "a continuation line needs a previous header (%s is not None; else HTTPInputError, not KeyError)" % q.dotted(key))
         ok, n = leads_to_raise(pl.cfg, neg, _is_input_error)
         ck.ob(R, pl, pl.node, ok and n > 0, "an invalid continuation raises HTTPInputError", construct="no-match edge (continuation)")
     # flag forwarding and defaults (strict mode is what the server uses)
@@ -427,7 +449,7 @@ def check_header_fields(ck, env, RP="C01"):
                 kv = q.kwarg(c, tfl)
                 ck.ob(R, f, c, kv is None or (isinstance(kv, ast.Name) and kv.id == fl) or q.is_const(kv, True), "%s forwards the validation mode to %s" % (f.qualname, callee))
     ck.floor(R, n, 2, "parse_line/add forwarding calls")
-    ph = ck.func(H1, "HTTP1Connection._parse_headers")
+    ph = _F(ck, H1, "HTTP1Connection._parse_headers")
     pc = [c for c in q.calls(ph.node) if resolve_call(ck.repo, ph, c) is parse]
     ck.floor(R, len(pc), 1, "HTTPHeaders.parse calls in _parse_headers")
     pfl, _d = _flag_param(parse)
@@ -456,7 +478,7 @@ def check_multimap_for_framing(ck, RP="C01"):
     obs-fold continuation goes to the field added last."""
     R = RP + ".duplicate-fields-kept"
     da = _dict_attr(ck)
-    add = ck.func(HU, "HTTPHeaders.add")
+    add = _F(ck, HU, "HTTPHeaders.add")
     cfg = add.cfg
     stores = _store_nodes(add, da)
     keys = set()
@@ -495,18 +517,21 @@ def check_multimap_for_framing(ck, RP="C01"):
     ids = {n.id for n, _v in stores}
     r = reach_without(cfg, (), follow_exc=False, stop=lambda n: n.id in ids)
     ck.ob(R, add, add.node, cfg.exit.id not in r, "add() stores the value on every normal path (no silently dropped field)", construct="add: exit without store")
-    gi = ck.func(HU, "HTTPHeaders.__getitem__")
+    gi = _F(ck, HU, "HTTPHeaders.__getitem__")
     joins = [c for c in q.calls(gi.node) if q.call_attr(c) == "join" and isinstance(c.func.value, ast.Constant)]
     ck.floor(R, len(joins), 1, "join of the values in HTTPHeaders.__getitem__")
     for c in joins:
         ck.ob(R, gi, c, isinstance(c.func.value.value, str) and "," in c.func.value.value and len(c.args) == 1 and da in q.unparse(c.args[0]), "the combined field value joins all values with a comma (the conflict checks look for ',')")
     # continuation target
-    pl = ck.func(HU, "HTTPHeaders.parse_line")
+    pl = _F(ck, HU, "HTTPHeaders.parse_line")
     lk = None
+    plflow = Flow(pl)
     for node, v in _store_nodes(pl, da):
         tgt = node.ast.target if isinstance(node.ast, ast.AugAssign) else None
-        if tgt is not None and isinstance(tgt, ast.Subscript) and isinstance(tgt.value, ast.Subscript) and (q.dotted(tgt.value.slice) or "").startswith("self."):
-            lk = q.dotted(tgt.value.slice)
+        if tgt is not None and isinstance(tgt, ast.Subscript) and isinstance(tgt.value, ast.Subscript):
+            k = q.dotted(plflow.expand(tgt.value.slice, node))
+            if k and k.startswith("self."):
+                lk = k
     if lk is None:
         raise AnalysisError("parse_line: cannot identify the attribute naming the field a continuation extends")
     sets = {n.id for n in cfg.stmt_nodes(lambda n: n.kind == "stmt" and isinstance(n.ast, ast.Assign) and lk in q.assigned_paths(n.ast) and q.dotted(n.ast.value) == K)}
@@ -514,12 +539,12 @@ def check_multimap_for_framing(ck, RP="C01"):
     ck.ob(RP + ".header-continuation", add, add.node, cfg.exit.id not in r, "add() records the field it stored as the target of a following obs-fold continuation (%s = %s on every normal path)" % (lk, K), construct="add: exit without %s update" % lk)
     for node, v in _store_nodes(pl, da):
         tgt = node.ast.target if isinstance(node.ast, ast.AugAssign) else None
-        ok = tgt is not None and isinstance(tgt, ast.Subscript) and q.is_const(getattr(tgt.slice, "operand", None), 1) and isinstance(tgt.slice, ast.UnaryOp) and isinstance(tgt.value, ast.Subscript) and q.dotted(tgt.value.slice) == lk
+        ok = tgt is not None and isinstance(tgt, ast.Subscript) and q.is_const(getattr(tgt.slice, "operand", None), 1) and isinstance(tgt.slice, ast.UnaryOp) and isinstance(tgt.value, ast.Subscript) and q.dotted(plflow.expand(tgt.value.slice, node)) == lk
         ck.ob(RP + ".header-continuation", pl, node.ast, ok, "a continuation is appended to the last value of the field added last")
 
 
 def check_read_body(ck, tree, RP="C01"):
-    fi = ck.func(H1, "HTTP1Connection._read_body")
+    fi = _F(ck, H1, "HTTP1Connection._read_body")
     cfg = fi.cfg
     repo = ck.repo
     hps = {q.dotted(a.comparators[0]) for n in cfg.stmt_nodes(lambda n: n.kind == "test") for a in [canon_atom(n.ast)[0]] if _hdr_in(a, "Content-Length")}
@@ -527,16 +552,45 @@ def check_read_body(ck, tree, RP="C01"):
     if len(hps) != 1:
         raise AnalysisError("_read_body: cannot identify the headers parameter (Content-Length membership tests on %s)" % sorted(hps))
     hp = hps.pop()
-    # --- conflicting Content-Length
-    R = RP + ".cl-conflict"
-    rewrites = [n for n in cfg.stmt_nodes(lambda n: n.kind == "stmt" and isinstance(n.ast, ast.Assign) and any(_hdr_get(t, "Content-Length", hp) for t in n.ast.targets))]
-    for node in rewrites:
-        pieces = sorted(x for x in q.names_in(node.ast.value) if x in q.local_names(fi.node))
-        if len(pieces) != 1:
-            raise AnalysisError("Content-Length rewrite of an unknown shape at %s" % fi.site(node.ast))
-        P = pieces[0]
+    flow = Flow(fi)
+    renv = RegexEnv(repo)
+    parse_int = repo.func(H1, "parse_int")
 
-        def all_equal(a, RP=RP):
+    def is_cl_value(e):
+        return _hdr_get(e, "Content-Length", hp) or (isinstance(e, ast.Call) and q.call_attr(e) == "get" and q.dotted(e.func.value) == hp and e.args and _const_str(e.args[0], "Content-Length"))
+
+    def split_of_cl(e):
+        """(pattern text | ',' literal) if the expanded expression ``e`` splits the Content-Length value into list members"""
+        if not isinstance(e, ast.Call) or not isinstance(e.func, ast.Attribute) or e.func.attr != "split":
+            return None
+        if q.dotted(e.func.value) == "re" and len(e.args) >= 2 and is_cl_value(e.args[1]):
+            try:
+                return __import__("vt.rx", fromlist=["eval_pattern_expr"]).eval_pattern_expr(e.args[0], {})
+            except AnalysisError:
+                return renv.pattern(fi, e.args[0])
+        pat = renv.pattern(fi, e.func.value)
+        if pat is not None and e.args and is_cl_value(e.args[0]):
+            return pat
+        if is_cl_value(e.func.value) and len(e.args) == 1 and _const_str(e.args[0]):
+            import re as _re
+            return _re.escape(e.args[0].value)
+        return None
+
+    # --- conflicting Content-Length: wherever one member of the split list is taken, all members were compared equal
+    R = RP + ".cl-conflict"
+    lists = {}
+    for n in cfg.stmt_nodes(lambda n: n.kind == "stmt" and isinstance(n.ast, (ast.Assign, ast.AnnAssign))):
+        tgt = n.ast.targets[0] if isinstance(n.ast, ast.Assign) and len(n.ast.targets) == 1 else getattr(n.ast, "target", None)
+        if isinstance(tgt, ast.Name) and n.ast.value is not None:
+            pat = split_of_cl(flow.expand(n.ast.value, n))
+            if pat is not None:
+                lists[tgt.id] = (pat, n)
+    from ..rx import Rx as _Rx
+    for P, (pat, defnode) in sorted(lists.items()):
+        w = _Rx.from_pattern(pat).witness_not_in(_Rx.from_pattern(r",\s*"))
+        ck.ob(R, fi, defnode.ast, w is None, "Content-Length list members are separated at commas (plus following whitespace) only%s" % ("" if w is None else " (also splits at %r)" % w))
+
+        def all_equal(a, P=P):
             # any(x != P[k] for x in P) -> all-equal when False ; all(x == P[k] for x in P) -> when True ; len(set(P)) == 1
             if isinstance(a, ast.Call) and q.call_attr(a) in ("any", "all") and len(a.args) == 1 and isinstance(a.args[0], (ast.GeneratorExp, ast.ListComp)):
                 g = a.args[0]
@@ -560,52 +614,58 @@ def check_read_body(ck, tree, RP="C01"):
             return None
 
         eq = atom_edges(cfg, all_equal)
-        if not eq:
+        eq_tests = {e[0] for e in eq}
+        takes = [n for n in cfg.stmt_nodes(lambda n: n.id not in eq_tests and node_mentions(n, lambda x: isinstance(x, ast.Subscript) and isinstance(x.ctx, ast.Load) and q.dotted(x.value) == P and isinstance(x.slice, ast.Constant)))]
+        takes = [n for n in takes if flow.reach.unique(n, P) is not None and flow.reach.unique(n, P).node is defnode]
+        if takes and not eq:
             others = [n for n in cfg.stmt_nodes(lambda n: n.kind == "test") if P in q.names_in(n.ast)]
             if others:
                 raise AnalysisError("unrecognised Content-Length agreement test at %s" % fi.site(others[0].ast))
-        ck.ob(R, fi, node.ast, bool(eq) and only_through(cfg, node, eq), "a comma-joined Content-Length is collapsed only when all pieces are equal (else HTTPInputError)")
-        neg = atom_edges(cfg, lambda a: (None if all_equal(a) is None else (not all_equal(a))))
-        ok, n = leads_to_raise(cfg, neg, _is_input_error)
-        ck.ob(R, fi, node.ast, ok and n > 0, "unequal Content-Length pieces raise HTTPInputError", construct="unequal-pieces edge")
-    from ..rx import Rx as _Rx
-    for c in q.calls(fi.node):
-        if q.dotted(c.func) == "re.split" and c.args and isinstance(c.args[0], ast.Constant) and isinstance(c.args[0].value, str):
-            w = _Rx.from_pattern(c.args[0].value).witness_not_in(_Rx.from_pattern(r",[ \t]*|,\s*"))
-            ck.ob(R, fi, c, w is None, "Content-Length list members are separated at commas (plus following whitespace) only%s" % ("" if w is None else " (also splits at %r)" % w))
-    ck.note("%s: %d Content-Length rewrite site(s) in _read_body" % (R, len(rewrites)))
+        for node in takes:
+            ck.ob(R, fi, node.ast, bool(eq) and only_through(cfg, node, eq), "one member of a comma-joined Content-Length is used only when all members are equal (else HTTPInputError)")
+        if takes:
+            neg = atom_edges(cfg, lambda a: (None if all_equal(a) is None else (not all_equal(a))))
+            ok, n = leads_to_raise(cfg, neg, _is_input_error)
+            ck.ob(R, fi, defnode.ast, (ok and n > 0) or not eq, "unequal Content-Length members raise HTTPInputError", construct="unequal-pieces edge")
+    ck.note("%s: %d Content-Length list(s) in _read_body" % (R, len(lists)))
 
     # --- integer Content-Length -> fixed reader
     R = RP + ".cl-integer"
     fixed = [(n, c) for n, c in call_sites(fi, "self._read_fixed_body")]
     ck.floor(R, len(fixed), 1, "_read_fixed_body call sites")
-    parse_int = repo.func(H1, "parse_int")
+
+    def strict_length(e):
+        """parse_int(<Content-Length value | one member of its split list>)"""
+        if not (isinstance(e, ast.Call) and resolve_call(repo, fi, e) is parse_int and len(e.args) == 1):
+            return False
+        a = e.args[0]
+        if is_cl_value(a):
+            return True
+        return isinstance(a, ast.Subscript) and isinstance(a.slice, ast.Constant) and split_of_cl(a.value) is not None
+
     for node, c in fixed:
         a0 = q.arg(c, 0)
         if not isinstance(a0, ast.Name):
             raise AnalysisError("_read_fixed_body length argument of unknown shape at %s" % fi.site(c))
         L = a0.id
-        for st in q.walk_body(fi.node):
-            v = None
-            if isinstance(st, ast.Assign) and any(q.dotted(t) == L for t in st.targets):
-                v = st.value
-            elif isinstance(st, ast.AnnAssign) and q.dotted(st.target) == L and st.value is not None:
-                v = st.value
-            elif isinstance(st, ast.AugAssign) and q.dotted(st.target) == L:
-                ck.ob(R, fi, st, False, "the body length is not adjusted after parsing")
+        for alt, via in flow.alternatives(a0, node):
+            if q.is_const(alt, None) or (isinstance(alt, ast.Constant) and type(alt.value) is int and alt.value == 0):
                 continue
-            if v is None:
-                continue
-            if q.is_const(v, None) or (isinstance(v, ast.Constant) and type(v.value) is int and v.value == 0):
-                continue
-            ok = isinstance(v, ast.Call) and resolve_call(repo, fi, v) is parse_int and v.args and _hdr_get(v.args[0], "Content-Length", hp)
-            ck.ob(R, fi, st, ok, "the fixed body length is parse_int(headers['Content-Length']) (strict decimal), nothing else")
-            if ok:
-                h = handler_for(fi, v, "ValueError")
-                okh = h is not None and any(isinstance(s, ast.Raise) and _is_input_error(raised_class(s)) for s in q.walk_local(h))
-                ck.ob(R, fi, v, okh, "a non-integer Content-Length raises HTTPInputError (ValueError handler)")
+            if isinstance(alt, ast.Name):
+                kinds = {d.kind for d in flow.reach.defs_at(node, alt.id.split("@")[0])}
+                if "aug" in kinds:
+                    ck.ob(R, fi, c, False, "the body length is not adjusted after parsing")
+                    continue
+                raise AnalysisError("_read_fixed_body length of unknown origin (%s) at %s" % (q.unparse(alt), fi.site(c)))
+            anchor = via[-1].ast if via else c
+            ck.ob(R, fi, anchor, strict_length(alt), "the fixed body length is parse_int(<Content-Length value>) (strict decimal), nothing else")
         ck.ob(R, fi, c, only_through(cfg, node, atom_edges(cfg, lambda a: False if (isinstance(a, ast.Compare) and isinstance(a.ops[0], ast.Is) and q.dotted(a.left) == L and q.is_const(a.comparators[0], None)) else None)),
               "the fixed-length reader runs only when a Content-Length was parsed")
+    pcs = [c for c in q.calls(fi.node) if resolve_call(repo, fi, c) is parse_int]
+    for v in pcs:
+        h = handler_for(fi, v, "ValueError")
+        okh = h is not None and any(isinstance(s, ast.Raise) and _is_input_error(raised_class(s)) for s in q.walk_local(h))
+        ck.ob(R, fi, v, okh, "a non-integer Content-Length raises HTTPInputError (ValueError handler)")
 
     # --- selection
     R = RP + ".body-selection"
@@ -628,7 +688,7 @@ def check_read_body(ck, tree, RP="C01"):
 
 
 def check_transfer_encoding(ck, RP="C01"):
-    fi = ck.func(H1, "is_transfer_encoding_chunked")
+    fi = _F(ck, H1, "is_transfer_encoding_chunked")
     cfg = fi.cfg
     hp = [p for p in fi.params()][0]
     binds = single_bindings(fi.node)
@@ -738,7 +798,7 @@ def check_ints(ck, env, tree, RP="C01"):
 
 def check_chunked(ck, tree, RP="C01"):
     repo = ck.repo
-    fi = ck.func(H1, "HTTP1Connection._read_chunked_body")
+    fi = _F(ck, H1, "HTTP1Connection._read_chunked_body")
     cfg = fi.cfg
     hexint = repo.func(H1, "parse_hex_int")
     binds_all = {}
@@ -879,10 +939,10 @@ def check_counted_reads(ck, fi, length_sources, RP="C01"):
 
 def check_error_discipline(ck, tree, RP="C01"):
     repo = ck.repo
-    rm = ck.func(H1, "HTTP1Connection._read_message")
-    loop = ck.func(H1, "HTTP1ServerConnection._server_request_loop")
+    rm = _F(ck, H1, "HTTP1Connection._read_message")
+    loop = _F(ck, H1, "HTTP1ServerConnection._server_request_loop")
     # oracle: extracted handlers
-    outer = [t for t in q.walk_body(rm.node) if isinstance(t, ast.Try) and any(_is_input_error(nm) for h in t.handlers for nm in q.handler_names(h))]
+    outer = [t for t in q.walk_body(rm.node) if isinstance(t, ast.Try) and any(_is_input_error(nm) for h in t.handlers for nm in handler_class_names(rm, h))]
     if not outer:
         raise AnalysisError("_read_message has no HTTPInputError handler")
     quiet = set()
@@ -891,7 +951,7 @@ def check_error_discipline(ck, tree, RP="C01"):
             for h in t.handlers:
                 logs = [c for c in q.calls(h) if q.call_attr(c) in ("error", "exception", "warning", "critical")]
                 if not logs and h.type is not None:
-                    quiet |= {nm.split(".")[-1] for nm in q.handler_names(h)}
+                    quiet |= {nm.split(".")[-1] for nm in handler_class_names(loop, h)}
     quiet.discard("_QuietException")
     ck.note("clean exception classes extracted from the handlers: HTTPInputError + %s" % sorted(quiet))
     if "StreamClosedError" not in quiet:
@@ -954,7 +1014,7 @@ def check_error_discipline(ck, tree, RP="C01"):
 
     # 4. HTTPInputError passes the delegate logging context untouched
     R = RP + ".input-error-passthrough"
-    ex = ck.func(H1, "_ExceptionLoggingContext.__exit__")
+    ex = _F(ck, H1, "_ExceptionLoggingContext.__exit__")
     passes = atom_edges(ex.cfg, lambda a: False if (isinstance(a, ast.Call) and q.call_attr(a) == "isinstance" and len(a.args) == 2 and _is_input_error(q.dotted(a.args[1]))) else None)
     n = 0
     for node in ex.cfg.stmt_nodes(lambda n: n.kind == "stmt" and (isinstance(n.ast, ast.Raise) or node_mentions(n, lambda x: isinstance(x, ast.Call) and q.call_attr(x) in ("error", "exception", "warning")))):
@@ -972,7 +1032,7 @@ def check_error_discipline(ck, tree, RP="C01"):
 
 def check_host(ck, env, RP="C01"):
     R = RP + ".host-validated"
-    fi = ck.func(HU, "HTTPServerRequest.__init__")
+    fi = _F(ck, HU, "HTTPServerRequest.__init__")
     cfg = fi.cfg
     rc = [x for x in env.calls(fi) if x[3] is not None and (q.dotted(x[3]) or "").startswith("self.")]
     ck.floor(R, len(rc), 1, "regex tests on request attributes in HTTPServerRequest.__init__")
@@ -1023,7 +1083,7 @@ def check_host(ck, env, RP="C01"):
 
 def check_400(ck, RP="C01"):
     R = RP + ".bad-request-400"
-    fi = ck.func(H1, "HTTP1Connection._read_message")
+    fi = _F(ck, H1, "HTTP1Connection._read_message")
     cfg = fi.cfg
     hs = [n for n in cfg.nodes if n.kind == "handler" and any(_is_input_error(nm) for nm in q.handler_names(n.ast)) and n.id in cfg.reachable()]
     ck.floor(R, len(hs), 1, "reachable HTTPInputError handlers in _read_message")
@@ -1058,7 +1118,7 @@ def check_400(ck, RP="C01"):
         ck.ob(R, fi, h, not other, "the handler never falls through to the success return", construct="except HTTPInputError: fall-through")
 
     R = RP + ".loop-stops"
-    lp = ck.func(H1, "HTTP1ServerConnection._server_request_loop")
+    lp = _F(ck, H1, "HTTP1ServerConnection._server_request_loop")
     lcfg = lp.cfg
     rr = [(n, c) for n, c in call_sites(lp, ".read_response")]
     ck.floor(R, len(rr), 1, "read_response calls in the serving loop")
@@ -1167,7 +1227,7 @@ def check_wire_exact(ck, tree, RP="C01"):
     def ows_strip(c):
         return c.func.attr in ("strip", "lstrip", "rstrip") and len(c.args) == 1 and not c.keywords and const_str(c.args[0]) is not None and const_str(c.args[0]) != "" and set(const_str(c.args[0])) <= {" ", "\t"}
 
-    pl = ck.func(HU, "HTTPHeaders.parse_line")
+    pl = _F(ck, HU, "HTTPHeaders.parse_line")
     binds = single_bindings(pl.node)
     adds = [c for c in q.calls(pl.node) if q.call_attr(c) == "add" and q.dotted(c.func.value) == "self"]
     ck.floor(R, len(adds), 1, "self.add calls in parse_line")
@@ -1181,7 +1241,7 @@ def check_wire_exact(ck, tree, RP="C01"):
     for c in q.calls(pl.node):
         if isinstance(c.func, ast.Attribute) and c.func.attr in ("strip", "lstrip", "rstrip") and not ows_strip(c):
             ck.ob(R, pl, c, False, "parse_line trims SP/HTAB only (a broader strip would hide control characters from validation)")
-    ph = ck.func(H1, "HTTP1Connection._parse_headers")
+    ph = _F(ck, H1, "HTTP1Connection._parse_headers")
     crlf_strip = lambda c: c.func.attr in ("lstrip", "rstrip", "strip") and len(c.args) == 1 and not c.keywords and isinstance(c.args[0], ast.Constant) and isinstance(c.args[0].value, str) and c.args[0].value != "" and set(c.args[0].value) <= {"\r", "\n"}
     k = 0
     for c in q.calls(ph.node):
@@ -1190,7 +1250,7 @@ def check_wire_exact(ck, tree, RP="C01"):
             ck.ob(R, ph, c, crlf_strip(c), "the header block is only trimmed of CR/LF (blank lines before the start line, the CR of the line end); nothing else is normalised before parsing")
     ck.floor(R, k, 1, "trimming calls in _parse_headers")
     # line separation at LF only
-    ps = ck.func(HU, "HTTPHeaders.parse")
+    ps = _F(ck, HU, "HTTPHeaders.parse")
     k = 0
     for f in (ps, pl, ph):
         for c in q.calls(f.node):
@@ -1248,7 +1308,7 @@ def run(ck):
     check_transfer_encoding(ck)
     check_ints(ck, env, tree)
     check_chunked(ck, tree)
-    check_counted_reads(ck, ck.func(H1, "HTTP1Connection._read_fixed_body"), set())
+    check_counted_reads(ck, _F(ck, H1, "HTTP1Connection._read_fixed_body"), set())
     check_error_discipline(ck, tree)
     check_host(ck, env)
     check_400(ck)
